@@ -34,3 +34,31 @@ Qed.
 Lemma dedupe_fixed_keeps_w :
   nonseed_urls (dedupe w_tree) = [1; 2; 9] /\ check_consistency (dedupe w_tree) = 0%nat.
 Proof. split; vm_compute; reflexivity. Qed.
+
+(* a bigger tree: redirected seed 0 -> page 1 with assets 2 (done), 3 (has assets 5 6 7 8, three of
+   them duplicates: 5 of the worked node 2, 7 of the fresh node 6, 8 of the worked node 4 that comes
+   LATER in pre-order), 4 (redirected to 9), 10 (seen) *)
+Definition big_tree : item :=
+  Node (Info 0 0 GotRedirected true 0 0)
+    [ Node (Info 1 1 GotChildren false 0 1)
+        [ Node (Info 2 2 Completed false 0 0) [];
+          Node (Info 3 3 GotChildren false 0 0)
+            [ Node (Info 5 2 Fresh false 0 0) []; Node (Info 6 7 Fresh false 0 0) [];
+              Node (Info 7 7 Fresh false 0 0) []; Node (Info 8 4 Fresh false 0 0) [] ];
+          Node (Info 4 4 GotRedirected false 0 0) [ Node (Info 9 9 Fresh false 0 1) [] ];
+          Node (Info 10 10 Seen false 0 0) [] ] ].
+
+Lemma big_tree_inv0 : Inv0 big_tree.
+Proof. repeat split; try (apply NoDup_dec_true; vm_compute; reflexivity). Qed.
+
+(* a seed's life as an operation sequence: preprocess, archive, postprocess (four assets, two with
+   one URL), finisher, second pass (one asset rejected, de-duplication, one archived and redirected,
+   one seen), third pass (redirect target fails), completion *)
+Definition seed_tree : item := Node (Info 0 0 Fresh true 0 0) [].
+Definition ops1 : list sop :=
+  [ SSetUrl 0 5; SSetStatus 0 PreProcessed; SSetStatus 0 Archived;
+    SAddAsset 0 1 7 0; SAddAsset 0 2 7 0; SAddAsset 0 3 8 0; SAddAsset 0 4 6 0; SComplete;
+    SSetUrl 3 88; SRemove 0 3; SDedupe;
+    SSetStatus 1 PreProcessed; SSetStatus 4 Seen; SSetStatus 1 Archived;
+    SAddRedirect 1 5 9 0 1; SComplete;
+    SSetStatus 5 PreProcessed; SSetStatus 5 Failed; SMarkCompleted; SComplete; SSeedDone ].
